@@ -186,11 +186,13 @@ func init() {
 		"bytes.Count":     extCount,
 
 		// strconv / fmt natives (concrete arguments)
-		"strconv.ParseFloat": extParseFloat,
-		"strconv.ParseInt":   extParseInt,
-		"strconv.ParseUint":  extParseUint,
-		"strconv.Atoi":       extAtoi,
-		"strconv.Itoa":       func(fr *frame, args []value) value { return strconv.Itoa(int(concInt(fr, args[0], "strconv.Itoa"))) },
+		"strconv.ParseFloat":         extParseFloat,
+		"strings.Clone":              func(fr *frame, args []value) value { return args[0] },
+		"internal/stringslite.Clone": func(fr *frame, args []value) value { return args[0] },
+		"strconv.ParseInt":           extParseInt,
+		"strconv.ParseUint":          extParseUint,
+		"strconv.Atoi":               extAtoi,
+		"strconv.Itoa":               func(fr *frame, args []value) value { return strconv.Itoa(int(concInt(fr, args[0], "strconv.Itoa"))) },
 		"strconv.FormatInt": func(fr *frame, args []value) value {
 			return strconv.FormatInt(concInt(fr, args[0], "strconv.FormatInt"), int(asInt64(args[1])))
 		},
@@ -583,8 +585,36 @@ func extAtoi(fr *frame, args []value) value {
 	return tuple{n, fr.i.numError(err)}
 }
 
+// numError converts a strconv error into the interpreter's *strconv.NumError
+// (callers inside strconv type-assert it).
 func (i *interpreter) numError(err error) value {
-	return i.errValue(err)
+	ne, ok := err.(*strconv.NumError)
+	pkg := i.prog.ImportedPackage("strconv")
+	if err == nil || !ok || pkg == nil {
+		return i.errValue(err)
+	}
+	tn := pkg.Type("NumError")
+	var inner value = iface{}
+	name := ""
+	switch ne.Err {
+	case strconv.ErrSyntax:
+		name = "ErrSyntax"
+	case strconv.ErrRange:
+		name = "ErrRange"
+	}
+	if g := pkg.Var(name); name != "" && g != nil {
+		if cell, ok := i.globals[g]; ok && cell != nil {
+			inner = *cell
+		}
+	}
+	if it, ok := inner.(iface); !ok || it.t == nil {
+		inner = i.errValue(ne.Err)
+	}
+	if tn == nil {
+		return i.errValue(err)
+	}
+	cell := value(structure{ne.Func, ne.Num, inner})
+	return iface{types.NewPointer(tn.Type()), &cell}
 }
 
 // fmtArg converts an interpreter value into something fmt can print.
